@@ -286,7 +286,7 @@ pub fn assemble_pub(rng: &mut Rng, reqs: &[AReq], script: Vec<Action>) -> ConnCa
     assemble(rng, reqs, script, Mode::HalfClose, "")
 }
 
-const METHODS: &[&str] = &["GET", "HEAD", "POST", "PUT", "DELETE", "CONNECT", "OPTIONS", "TRACE", "PATCH", "get", "Get", "PROPFIND", "M-SEARCH", "X", "a!#$%&'*+-.^_`|~z"];
+const METHODS: &[&str] = &["GET", "HEAD", "POST", "PUT", "DELETE", "CONNECT", "OPTIONS", "TRACE", "PATCH", "get", "Get", "head", "Head", "hEAD", "HEADS", "PROPFIND", "M-SEARCH", "X", "a!#$%&'*+-.^_`|~z"];
 
 fn rand_token(rng: &mut Rng, n: usize) -> String {
     (0..n).map(|_| *rng.pick(b"abcdefghijklmnopqrstuvwxyzABCDEFGHIJKLMNOPQRSTUVWXYZ0123456789-_.!~") as char).collect()
@@ -630,6 +630,11 @@ pub const BAD_417: &[&[u8]] = &[
     b"GET /e HTTP/1.0\r\nExpect: bogus\r\n\r\n",
     b"GET /e HTTP/1.1\r\nConnection: upgrade\r\nExpect: 200-ok\r\n\r\n",
     b"GET /e HTTP/1.1\r\nExpect: 200-ok\r\n\r\n",
+    // lists: an expectation next to the supported one is still an unsupported value
+    b"POST /l HTTP/1.1\r\nExpect: 100-continue, x-bogus\r\nContent-Length: 3\r\n\r\nabc",
+    b"POST /l HTTP/1.1\r\nExpect: x-bogus, 100-continue\r\nContent-Length: 3\r\n\r\nabc",
+    b"GET /l HTTP/1.1\r\nExpect: 100-continue,\r\n\r\n",
+    b"GET /l HTTP/1.1\r\nExpect: 100-continue;q=1\r\n\r\n",
 ];
 pub const BAD_505: &[&[u8]] = &[
     b"GET /v2 HTTP/2.0\r\nHost: x\r\n\r\n",
